@@ -167,7 +167,11 @@ def containerStartTime (p : Pod) : Option Time :=
     let t := match c.running with
       | some st => if !isUnixZero st then timeMax st t else t
       | none => t
-    match c.terminated with
+    let t := match c.terminated with
+      | some tm => if !isUnixZero tm.startedAt then timeMax tm.startedAt t else t
+      | none => t
+    -- a container that is waiting to be restarted has started before
+    match c.lastTerminated with
     | some tm => if !isUnixZero tm.startedAt then timeMax tm.startedAt t else t
     | none => t) none
 
